@@ -18,9 +18,10 @@ RULE = (
     "synthetic constant, linear-in-pressure and bubble-point-kinked families with/without vaporised oil; uniform "
     "and jittered pressure grids of 4..60 rows; oil-saturation column rising or falling inside [0, 1-Sw]), an "
     "admissible Brooks-Corey set with water at or below its residual (relative_permeabilities_twophase), "
-    "reference densities 1e-4..1e2, a unit system for the table (viscosity in cP, Pa s or 1e3 / 1e-6 multiples; pressure in psi, Pa, bar or MPa), porosity, an initial pressure above the second node and a frac-face pressure "
+    "reference densities 1e-4..1e2 (or exactly 0 for one component left out of the mass balance), a unit system for the table (viscosity in cP, Pa s or 1e3 / 1e-6 multiples; pressure in psi, Pa, bar or MPa), porosity, an initial pressure above the second node and a frac-face pressure "
     "below it. Non-trivial = a table with >= 4 rows whose mobility is positive on at least 3 rows. Distinct = hash "
-    "of the case record."
+    "of the case record. After from_table the caller's PVT and rel-perm tables are overwritten in place and the object's "
+    "functions and m_i must be what they were."
 )
 ASSUMPTIONS = [
     "total mass mobility as in docs/background.md with k and rho_ref = 1: rho_o (Rv krg/(mu_g Bg) + kro/(mu_o Bo)) + rho_g (krg/(mu_g Bg) + Rs kro/(mu_o Bo)) + rho_w krw/(mu_w Bw)",
@@ -148,6 +149,11 @@ def check_case(case) -> Result:
     if not (want[ki] > 0 and want[1] > 0):
         res.labels["from_table"] = "skipped: zero mobility below p_i"
         return res
+    if not float(np.interp(p_i, p, want)) > float(np.interp(p_f, p, want)):
+        # no mobility anywhere between the frac-face and the initial pressure (a component left out of the mass balance
+        # can leave such a stretch): both map to the same value and "into [0, 1)" has no content
+        res.labels["from_table"] = "skipped: zero mobility between p_f and p_i"
+        return res
     # total compressibility must be positive for the wrapper's diffusivity to make sense
     st_hi = mp.storage_doc(tab, rho, case["phi"], case["Sw"], p + 0.5, so)
     st_lo = mp.storage_doc(tab, rho, case["phi"], case["Sw"], p - 0.5, so)
@@ -210,4 +216,18 @@ def check_case(case) -> Result:
     if not (0.0 <= mf < upper or (mf == upper == 1.0 and not on_node)):
         res.bad("C15/frac-face-maps-into-unit-interval", f"from_table: scaled pseudopressure at p_f={p_f!r} is {mf!r} (p_i={p_i!r}, m_i={m_i!r}, rows around p_i: {p[ki - 1]!r}, {p[ki]!r})")
     res.labels["from_table"] = "checked"
+    # the object is a function of the tables it was built from: the caller overwriting its own arrays afterwards (another
+    # unit system, buffers re-used for the next well) must not change it
+    pq = np.array([p_i, p_f, float(p[len(p) // 2])])
+    ms = ms.copy()
+    before = (np.asarray(fp.m_scaled_func(pq), float).copy(), float(fp.m_i), np.asarray(fp.alpha(ms), float).copy())
+    from vf import tables as _tables
+
+    _tables.scribble(tab_in)
+    _tables.scribble(kr_in)
+    after = (np.asarray(lib("m_scaled_func", fp.m_scaled_func, pq), float), float(fp.m_i), np.asarray(lib("alpha", fp.alpha, ms), float))
+    for name, b, a in zip(("m_scaled_func at p_i, p_f and a table pressure", "m_i", "alpha looked up at the node values"), before, after):
+        if np.shape(a) != np.shape(b) or not np.array_equal(a, b, equal_nan=True):
+            res.bad("C15/independent-of-later-changes-to-the-callers-tables", f"from_table ({case['container']}): {name} changed after the caller overwrote its own tables in place: {b!r} -> {a!r}")
+            break
     return res
